@@ -108,6 +108,12 @@ def step (st : St) (j : Json) : Except String (St × Json × List Fired) := do
     let height ← jint j "height"
     let nowNs ← jint j "now"
     let exp ← jint j "exp"
+    if (jbool out "panic").toOption.getD false then
+      -- the real end-blocker panicked: the chain halts, pending and due requests never obtain their result
+      match endBlock s (fun _ => (1, "")) exp height nowNs with
+      | some _ =>
+        return (st, mkObj [("panic", jb false)], [{ name := "end_block_panicked_requests_left_unresolved", detail := mkObj [("err", js ((jstr out "err").toOption.getD "")), ("pending", jl (s.pending.map jn))] }])
+      | none => pure ()
     let (ireqs, _, _, ivals) ← parseDump out
     -- env: the script outcome of each pending id is read from the implementation's result
     let outcome : Nat → Nat × String := fun id =>
